@@ -781,9 +781,9 @@ pub fn property() -> Property {
         pre: Some(pre),
         post: None,
         parts: vec![
-            Box::new(Part { name: "skeletons", driver: Driver::Gen(skel_strategy, 80_000, 320_000), prop: prop_skeleton, exhaustive: false }),
-            Box::new(Part { name: "pbd", driver: Driver::Gen(pbd_strategy, 80_000, 320_000), prop: prop_pbd, exhaustive: false }),
-            Box::new(Part { name: "cmp-tera-lgb", driver: Driver::Gen(small_strategy, 160_000, 640_000), prop: prop_small, exhaustive: false }),
+            Box::new(Part { name: "skeletons", driver: Driver::Gen(skel_strategy, 80_000, 1_280_000), prop: prop_skeleton, exhaustive: false }),
+            Box::new(Part { name: "pbd", driver: Driver::Gen(pbd_strategy, 80_000, 1_280_000), prop: prop_pbd, exhaustive: false }),
+            Box::new(Part { name: "cmp-tera-lgb", driver: Driver::Gen(small_strategy, 160_000, 2_560_000), prop: prop_small, exhaustive: false }),
         ],
     }
 }
